@@ -514,16 +514,19 @@ void load_helper(Archive &ar, integer_class &intgr)
     intgr = integer_class(std::move(int_str));
 }
 template <typename Archive>
-void load_helper(Archive &ar, const rational_class &rat)
+void load_helper(Archive &ar, rational_class &rat)
 {
     integer_class num, den;
     load_helper(ar, num);
     load_helper(ar, den);
+    if (den == 0) {
+        throw SerializationError("invalid rational");
+    }
+    rat = rational_class(num, den);
+    canonicalize(rat);
 }
-// Following is an ugly hack for templated integer classes
-// Not sure why the other clean version doesn't work
 template <typename Archive>
-RCP<const Basic> load_basic(Archive &ar, const URatPoly &b)
+RCP<const Basic> load_basic(Archive &ar, RCP<const URatPoly> &)
 {
     RCP<const Basic> var;
     size_t l;
@@ -536,6 +539,8 @@ RCP<const Basic> load_basic(Archive &ar, const URatPoly &b)
         rational_class second;
         ar(first);
         load_helper(ar, second);
+        // a stored polynomial has no zero coefficients
+        check_loaded(second != 0);
 #if !defined(__clang__) && (__GNUC__ == 4 && __GNUC_MINOR__ <= 7)
         d.insert(hint, std::make_pair(std::move(first), std::move(second)));
 #else
